@@ -359,6 +359,9 @@ func TestC12(t *testing.T) {
 		}
 		if p.Impostor != "" {
 			pcfg := map[string]any{"mode": "impostor", "impostorOf": wire, "plaintext": p.Impostor == "plaintext", "ctl": ""}
+			if strings.HasPrefix(p.Impostor, "chain-") {
+				pcfg["impChain"] = strings.TrimPrefix(p.Impostor, "chain-")
+			}
 			l := prepare(c.ID, "", pcfg, cfg, "cmd")
 			defer l.hardKill()
 			rec := func(op string, err error) {
